@@ -21,6 +21,7 @@ def run(ctx):
     lib_stats.python_threads(ctx, py)
     lib_stats.stats_mode(ctx, P)
     lib_stats.validators(ctx, P)
+    lib_stats.early_exits(ctx, P)
     lib_stats.string_equality(ctx, P)
     frozen = json.load(open(lib_module.OPTIONS_TABLE))["methods"]
     stat_funcs = {f for f, es in frozen.items() if any(e.get("flag", "").startswith("TSK_STAT_") for e in es)}
